@@ -1,0 +1,56 @@
+//go:build verif
+
+package docx
+
+// Verification hooks (add-only): read access to the parsed element list in
+// document order, which has no exported accessor.
+
+// VerifCell is one parsed table cell.
+type VerifCell struct {
+	Text    string
+	Paras   []string
+	ColSpan int
+	RowSpan int
+	Cont    bool // vertical-merge continuation
+}
+
+// VerifElem is one parsed body element ("p" or "tbl") in document order.
+type VerifElem struct {
+	Kind       string
+	Text       string
+	StyleID    string
+	IsHeading  bool
+	Level      int
+	IsListItem bool
+	NumID      string
+	ListLevel  int
+	Rows       [][]VerifCell
+}
+
+// VerifElements returns the reader's elements in the order it holds them.
+func (r *Reader) VerifElements() []VerifElem {
+	var out []VerifElem
+	for _, e := range r.elements {
+		switch {
+		case e.Type == "paragraph" && e.Paragraph != nil:
+			p := e.Paragraph
+			out = append(out, VerifElem{Kind: "p", Text: p.Text, StyleID: p.StyleID, IsHeading: p.IsHeading,
+				Level: p.Level, IsListItem: p.IsListItem, NumID: p.NumID, ListLevel: p.ListLevel})
+		case e.Type == "table" && e.Table != nil:
+			ve := VerifElem{Kind: "tbl"}
+			for _, row := range e.Table.Rows {
+				var cells []VerifCell
+				for _, c := range row.Cells {
+					vc := VerifCell{Text: c.Text, ColSpan: c.ColSpan, RowSpan: c.RowSpan, Cont: c.IsMergedContinuation}
+					for _, p := range c.Paragraphs {
+						vc.Paras = append(vc.Paras, p.Text)
+					}
+					cells = append(cells, vc)
+				}
+				ve.Rows = append(ve.Rows, cells)
+			}
+			out = append(out, ve)
+		}
+	}
+	return out
+}
